@@ -130,7 +130,13 @@ impl Write for SimDest {
                 accept = 0;
                 Ok(0)
             }
-            None => Ok(accept),
+            None => {
+                if self.plan.short_entry > 0 && (buf.len() == 12 || buf.len() == 8) && (self.plan.short_entry as usize) < buf.len() {
+                    accept = self.plan.short_entry as usize;
+                    self.fx_fired.push((n, DestFx::Short(self.plan.short_entry)));
+                }
+                Ok(accept)
+            }
         };
         if res.is_ok() && accept > 0 {
             if self.pos < self.origin {
